@@ -62,6 +62,18 @@ def suite (id : Nat) : Option SuiteParams :=
   else if id = 0xe051 ∨ id = 0xe053 then some ⟨.gcm, 0, 16, 4⟩
   else none
 
+/-- GB/T 38636-2020 table 2: the two suites whose key exchange is ECDHE (SM2 key agreement,
+6.4.5.3/6.4.5.4); the other two use ECC (the client encrypts the pre-master secret to the server's
+encryption certificate). -/
+def isECDHE (id : Nat) : Bool := id = 0xe011 ∨ id = 0xe051
+
+/-- 6.4.5.4 / 6.5.1: what a well-formed pre-master secret looks like.  ECC: 48 bytes, the first two
+the client's version (1.1), the rest random.  ECDHE: the 48 bytes the SM2 key agreement (GB/T
+32918.3, key length 48) produces, used AS THEY ARE — in particular leading zero bytes are part of
+the secret (unlike the (EC)DH shared secrets of RFC 5246 8.1.2, this is the output of a KDF). -/
+def preMasterWellFormed (id : Nat) (pre : Bytes) : Bool :=
+  pre.length == masterLen && (isECDHE id || pre.take 2 == be 2 0x0101)
+
 /-! ### key schedule -/
 
 def prf (P : Prims) (secret label seed : Bytes) (len : Nat) : Bytes :=
@@ -258,6 +270,11 @@ def explicitPart (m : Mode) (body : Bytes) : Bytes :=
   | .gcm => body.take explicitNonceLen
 
 /-! ### build-time checks -/
+
+#guard preMasterWellFormed 0xe053 (be 2 0x0101 ++ List.replicate 46 7)
+#guard !preMasterWellFormed 0xe053 (List.replicate 48 0)
+#guard preMasterWellFormed 0xe051 (List.replicate 48 0)
+#guard !preMasterWellFormed 0xe051 (List.replicate 47 1)
 
 #guard (suite 0xe013).map (keyBlockLen ·) == some 128
 #guard (suite 0xe053).map (keyBlockLen ·) == some 40
